@@ -25,6 +25,15 @@ CHECKS = {
              "compared with the native expression. Exhaustive over the stated finite matrix, sampling beyond it.",
         note="trusts g++ -O2 on x86-64 as the reference semantics; UB-without-trap inputs are excluded by predicate (counted in evidence)",
         design="4/C05"),
+    "C10": dict(
+        engine="hypothesis-runner",
+        category="exploration",
+        technique="model-based property testing: generated try/catch/finally nests in call frames vs a Python model of exception propagation (marker trace + escaping exception type)",
+        text="Generated nests of try/typed+untyped catch/finally inside def/lambda/method/bind/for_each/attribute frames with script- and C++-thrown "
+             "exceptions (also from catch and finally bodies); the printed marker trace and the dynamic type of whatever leaves eval are compared with "
+             "the model, with and without an exception_specification.",
+        note="the propagation model (first clause matching the dynamic type or a registered base wins; finally exactly once) is mine, written from the property and the documentation",
+        design="4/C10"),
     "C12": dict(
         engine="hypothesis-runner",
         category="exploration",
